@@ -92,6 +92,12 @@ func mineChild(data []byte, target uint64, workers int, prior interface{}, conc 
 	if len(conc) > 1 && conc[1] != nil {
 		sp["cancel_ms"] = conc[1]
 	}
+	if len(conc) > 2 && conc[2] != nil {
+		sp["reps"] = conc[2]
+	}
+	if len(conc) > 3 && conc[3] != nil {
+		sp["sweep"] = conc[3]
+	}
 	spec, _ := json.Marshal(sp)
 	cmd := exec.Command(os.Args[0], "-test.run", "^TestVerifChild$", "-test.count=1")
 	cmd.Env = append(os.Environ(), "VERIF_CHILD_IN="+string(spec))
@@ -179,9 +185,41 @@ func TestVerifChild(t *testing.T) {
 			nonce, err = w.Mine(context.Background(), data, target)
 		}
 	}
+	meets := func(d []byte, n uint64) bool {
+		var nb [8]byte
+		binary.LittleEndian.PutUint64(nb[:], n)
+		return Score(append(append([]byte{}, d...), nb[:]...)) >= target
+	}
+	if rp, ok := spec["reps"].(float64); ok && spec["conc"] == nil {
+		// the same call again and again, each under a fresh context that ends at a random moment within cancel_ms (also at
+		// once): the first call that answers with a nonce below the target is the one reported
+		rr := rand.New(rand.NewSource(int64(len(data))*7919 + int64(target)))
+		ms, _ := spec["cancel_ms"].(float64)
+		for rep := 0; rep < int(rp); rep++ {
+			if err == nil && !meets(data, nonce) {
+				break
+			}
+			c2, cf := context.WithTimeout(context.Background(), time.Duration(rr.Float64()*ms*float64(time.Millisecond)))
+			nonce, err = w.Mine(c2, data, target)
+			cf()
+		}
+	}
+	if sw, ok := spec["sweep"].(float64); ok {
+		// many different messages of the same length, one Mine each (no cancellation): the first one answered with a
+		// nonce below the target is the one reported (its data replaces the event's data)
+		rr := rand.New(rand.NewSource(int64(len(data))*104729 + int64(target)))
+		for rep := 0; rep < int(sw); rep++ {
+			if err != nil || !meets(data, nonce) {
+				break
+			}
+			data = append([]byte{}, data...)
+			rr.Read(data)
+			nonce, err = w.Mine(context.Background(), data, target)
+		}
+	}
 	close(stop)
 	bg.Wait()
-	out := M{"ok": err == nil, "err": fmt.Sprint(err), "nonce": nonce8(nonce), "panic": ""}
+	out := M{"ok": err == nil, "err": fmt.Sprint(err), "nonce": nonce8(nonce), "panic": "", "data_used": vInts(data)}
 	b, _ := json.Marshal(out)
 	fmt.Println("VERIF-CHILD-RESULT " + string(b))
 }
@@ -240,7 +278,14 @@ func runF(op string, in M) (M, M, M) {
 		data := vBytes(in["data"])
 		target := vFromLimbs(in["target"]).Uint64()
 		workers := vIntOf(in["workers"])
-		out := mineChild(data, target, workers, in["prior"], in["conc"], in["cancel_ms"])
+		out := mineChild(data, target, workers, in["prior"], in["conc"], in["cancel_ms"], in["reps"], in["sweep"])
+		if du, ok := out["data_used"]; ok { // a sweep reports the message its answer is about
+			if in["sweep"] != nil {
+				in["data"] = du
+				data = vBytes(du)
+			}
+			delete(out, "data_used")
+		}
 		f := digestFacts(data)
 		f["blocks"], f["audit"] = []M{}, []M{}
 		if out["ok"] == true && workers == 1 && target > 0 {
@@ -407,6 +452,19 @@ func TestVerifDriver(t *testing.T) {
 	r := vRand(12)
 	n := vEnvInt("VERIF_N", 20)
 	maxS := vEnvInt("VERIF_MAXS", 6)
+	// small products len * target (few sufficient zeros: the last trits of the target hash matter): many messages per length
+	for _, lt := range [][2]int{{1, 1}, {5, 1}, {11, 1}, {19, 1}, {1, 3}, {4, 2}, {17, 1}, {1, 2}, {10, 1}, {2, 8}} {
+		data := make([]byte, lt[0])
+		r.Read(data)
+		emit("pow2.Mine", M{"data": vInts(data), "target": vLimbsU64(uint64(lt[1])), "workers": 1, "sweep": 400})
+	}
+	// contexts that end at a random moment while a single worker is about to find / has just found a nonce (also before
+	// the call): the cancellation error, or a nonce that meets the target
+	for i, tg := range []uint64{2, 9, 30, 100} {
+		data := make([]byte, 3+5*i)
+		r.Read(data)
+		emit("pow2.Mine", M{"data": vInts(data), "target": vLimbsU64(tg), "workers": 1 + i%2, "cancel_ms": 0.4, "reps": 1500})
+	}
 	for k := 0; k < n; k++ {
 		data := make([]byte, []int{0, 1, 5, 19, 73, 200}[r.Intn(6)])
 		r.Read(data)
